@@ -240,6 +240,11 @@ class NpShim:
             return bool(_np.all(self.isclose(a, b, rtol, atol)))
         return _np.allclose(a, b, rtol=rtol, atol=atol, **k)
 
+    def searchsorted(self, a, v, side='left', **k):
+        if hasattr(a, '_pvc_searchsorted'):
+            return a._pvc_searchsorted(v, side)
+        return _np.searchsorted(a, v, side=side, **k)
+
     def around(self, x, decimals=0, **k):
         """nearest multiple of 10^-decimals; on symbolic data the result is K / 10^d with an
         integer atom K, |x 10^d - K| <= 1/2 (ties unspecified)"""
